@@ -19,7 +19,7 @@ from .. import arith
 
 CRATES = ['trust_runtime', 'trust_hir']
 NODEFAULT_OK = True
-NODEFAULT_SKIP = ['C01.R5']      # the checker-side table lives in trust_hir, which the second configuration does not load
+NODEFAULT_SKIP = ['C01.R5', 'C01.R7']      # the checker-side table lives in trust_hir, which the second configuration does not load
 EXPLANATION = __doc__
 
 RT = 'trust_runtime::'
@@ -86,6 +86,7 @@ def run(ctx):
     rules_r4(ctx)
     rules_r5(ctx)
     rules_r6(ctx)
+    rules_r7(ctx)
 
 
 def run_thorough(ctx):
@@ -564,3 +565,46 @@ def _ref_sources(fn, l):
 def _discr_eq_first_variant(fx, f2):
     # `matches!(self.severity, Severity::Error)` lowers to a discriminant switch; accept when the match table names it
     return False
+
+
+# =====================================================================================
+def rules_r7(ctx):
+    """The interpreter raises the static-class fault ConditionNotBool (or UndefinedVariable ...) when a condition is
+    ill-typed; the compile gate only protects the cycle if the checker looks at *every* condition of a construct."""
+    fx = ctx.fx
+    r7 = ctx.rule('C01.R7', 'the checker type-checks every condition of IF / ELSIF / WHILE / REPEAT against BOOL (its own condition, taken from its own node)', floor=4, floor_what='condition sites')
+    P = "trust_hir::type_check::stmt::<impl trust_hir::type_check::StmtChecker<'a, 'b>>::"
+    want = {'check_if_stmt': ['node', 'branch'], 'check_while_stmt': ['node'], 'check_repeat_stmt': ['node']}
+    for name, classes in want.items():
+        rec = fx.fns.get(P + name)
+        if rec is None:
+            cands = [k for k in fx.fns if k.endswith('::' + name) and 'type_check' in k]
+            rec = fx.fns.get(cands[0]) if cands else None
+        if rec is None:
+            r7.bad('anchor-missing|%s' % name, 'statement checker %s not found' % name)
+            continue
+        fn = F(rec)
+        found = set()
+        cb_blocks = fn.blocks_calling(lambda n: n.endswith('::check_boolean'))
+        for b, nm, t in fn.calls(lambda n: n.endswith('first_expression_child') or n.endswith('::last_expression_child')):
+            oo = operand_origins(fn, t['a'][0])
+            cls = None
+            if any(o[0] == 'arg' and o[1] == 2 for o in oo):
+                cls = 'node'
+            elif any(o[0] == 'call' and o[2].endswith('Iterator>::next') for o in oo):
+                cls = 'branch'
+            if cls is None:
+                continue
+            # its Some edge leads to a check_boolean call before anything else is fetched
+            pos, neg, _ = call_result_edges(fn, b)
+            others = set(fn.blocks_calling(lambda n: n.endswith('first_expression_child'))) - {b}
+            if pos and any(cbk in fn.reach([x for (_, x) in pos], avoid=others) for cbk in cb_blocks):
+                found.add(cls)
+        for cls in classes:
+            r7.saw()
+            key = 'condition|%s|%s' % (name.replace('check_', '').replace('_stmt', ''), cls)
+            if cls in found:
+                r7.ok(key, loc=fn.loc(0))
+            else:
+                what = 'the condition of the statement itself' if cls == 'node' else 'the condition of each ELSIF branch (taken from the branch node)'
+                r7.bad(key, '%s does not pass %s through check_boolean: a program with an ill-typed condition there is accepted and the cycle fails with the static-class fault ConditionNotBool / UndefinedVariable' % (name, what), loc=fn.loc(0))
